@@ -180,3 +180,20 @@ def errors_oracle(text, r):
         if lo not in bnd or hi not in bnd:
             return "error range %d..%d not on character boundaries" % (lo, hi)
     return None
+
+
+def stale_generated(ctx, fails, theorems, source_translators=("t_lexer", "t_prep", "t_parser")):
+    """A translator that refuses the source leaves its previous output in coq/gen: the theorems that speak about that
+    output are NOT established for the current tree, whatever coqc says about the stale file.  The `*_source` theorems
+    depend on t_lexer / t_prep / t_parser; every theorem about grammar_prog depends on t_grammar / t_grammarcert /
+    t_tokens / t_lextables / t_unicode."""
+    tr_failed = {f["translator"] for f in fails if f.get("kind") == "translator"}
+    if not tr_failed:
+        return
+    if tr_failed - set(source_translators):
+        stale = set(theorems)
+    else:
+        stale = {t for t in theorems if "source" in t}
+    ctx.cov["stale_generated_input"] = {"translators_failed": sorted(tr_failed), "theorems_not_established": sorted(stale)}
+    ok = ctx.cov.get("axioms_per_theorem", {})
+    ctx.cov["discharged"] = max(0, ctx.cov.get("discharged", 0) - len([t for t in stale if ok.get(t) == []]))
